@@ -8,6 +8,7 @@ import builtins
 import itertools
 
 from framework import Issue
+import world
 from world import UserBaseExc, UserExc, asyncstdlib, drive
 from props import c07
 from props.c07 import (CANCEL, INFINITE, TOOL_NAMES, TOOLS, U_KINDS, Run, features, mk_u,  # noqa: F401
@@ -132,7 +133,62 @@ class WithRun(Run):
         return {"ops": self.recs}
 
 
+# ---- exits during which the underlying iterator's own aclose() fails, suspends or is cancelled ---------------------
+# "When the block is left ... the scoped handle yields nothing further" must hold whatever the source's aclose() does.
+
+
+class _BadCloseSource:
+    """class-based async iterator whose aclose() raises / suspends (and may be cancelled there); it stays usable"""
+
+    def __init__(self, n, mode):
+        self.i, self.n, self.mode, self.closes = 0, n, mode, 0
+
+    def __aiter__(self):
+        return self
+
+    async def __anext__(self):
+        if self.i >= self.n:
+            raise StopAsyncIteration
+        self.i += 1
+        return self.i - 1
+
+    async def aclose(self):
+        self.closes += 1
+        if self.mode == "raise":
+            raise world.UserExc(31)
+        await world.Susp(["u", "aclose"])
+
+
+def _observe_badclose(case):
+    from world import asyncstdlib, drive, exc_name
+    src = _BadCloseSource(6, case["mode"])
+    handles = []
+
+    async def block(depth):
+        async with asyncstdlib.scoped_iter(src if depth == 0 else handles[-1]) as it:
+            handles.append(it)
+            await it.__anext__()
+            if depth + 1 < case["depth"]:
+                await block(depth + 1)
+
+    def reply(i, tok):
+        if case["mode"] == "cancel":
+            return ("throw", world.UserBaseExc(32))
+        return ("send", None)
+    res = drive(block(0), reply)
+    after = []
+    for h in handles:
+        r = drive(h.__anext__())
+        after.append("stop" if isinstance(r.exc, StopAsyncIteration) else (["item", r.value] if r.exc is None else ["exc", exc_name(r.exc)]))
+    # tools handed the retired outer handle must see nothing either
+    r = drive(asyncstdlib.list(asyncstdlib.islice(handles[0], 2)))
+    return {"badclose": {"exit": exc_name(res.exc), "after": after, "tool_after": r.value if r.exc is None else ["exc", exc_name(r.exc)],
+                         "closes": src.closes, "consumed": src.i}}
+
+
 def observe(case):
+    if case.get("family") == "badclose":
+        return _observe_badclose(case)
     obs = c07.observe(case)
     if case.get("with"):
         try:
@@ -143,6 +199,14 @@ def observe(case):
 
 
 def judge(case, obs, model):
+    if case.get("family") == "badclose":
+        b = obs["badclose"]
+        issues = []
+        if any(a != "stop" for a in b["after"]) or b["tool_after"] not in ([], ["exc", ["lib", "StopAsyncIteration"]]):
+            issues.append(Issue("oracle", b, "scoped-handle-yields-after-exit-with-failing-aclose"))
+        if b["closes"] != 1:
+            issues.append(Issue("oracle", b, "scope-exit-closes-%d-times" % b["closes"]))
+        return issues
     issues = c07.judge(case, obs, model)
     if "with_error" in obs:
         issues.append(Issue("oracle", {"error": obs["with_error"]}, "library-error-in-async-with-block"))
@@ -297,6 +361,9 @@ def exceptional_cases(quick):
 
 def cases(tier, rng):
     quick = tier == "quick"
+    for mode in ("raise", "suspend", "cancel"):
+        for depth in (1, 2, 3):
+            yield {"family": "badclose", "mode": mode, "depth": depth}
     yield from nesting_cases(quick)
     yield from pair_cases(quick, rng)
     yield from exceptional_cases(quick)
@@ -313,3 +380,26 @@ def search_cases(broken, rng):
     yield from c07.search_cases(broken, rng)
     yield from nesting_cases(True)
     yield from exceptional_cases(True)
+
+
+_c07_model_request = c07.model_request
+_c07_features = c07.features
+_c07_nontrivial = c07.nontrivial
+
+
+def model_request(case):  # noqa: F811
+    if case.get("family") == "badclose":
+        return None
+    return _c07_model_request(case)
+
+
+def features(case, obs):  # noqa: F811
+    if case.get("family") == "badclose":
+        return ["family=badclose", "mode=" + case["mode"]]
+    return _c07_features(case, obs)
+
+
+def nontrivial(case, obs):  # noqa: F811
+    if case.get("family") == "badclose":
+        return True
+    return _c07_nontrivial(case, obs)
